@@ -18,6 +18,6 @@ PLAN = dict(
         dict(name="wf", run="^(TestPropWellFormed|TestCorpus)$", checks=(1500, 200000), shards=(2, 16), timeout=(300, 3600)),
         dict(name="cw", run="^TestPropCountingWriter$", checks=(3000, 300000), shards=(1, 4), timeout=(300, 3600)),
     ],
-    require=[("wellformed", "sink:plain"), ("wellformed", "sink:readerfrom"), ("wellformed", "extra-sections-2"), ("countingwriter", "sink-failed"),
+    require=[("wellformed", "sink:plain"), ("wellformed", "sink:readerfrom"), ("wellformed", "sink:counting-prewritten"), ("wellformed", "extra-sections-2"), ("countingwriter", "sink-failed"),
              ("countingwriter", "op:readfrom"), ("countingwriter", "op:copy-plain")],
 )
